@@ -6,8 +6,11 @@ REPO = os.environ.get("VERIF_REPO", "/repo")
 LEAN = os.path.join(VERIF, "lean")
 HARNESS = os.path.join(VERIF, "harness")
 CACHE = os.path.join(VERIF, ".cache")
-EVIDENCE = os.path.join(VERIF, "evidence")
-REPLAYS = os.path.join(VERIF, "replays")
+# VERIF_OUT redirects evidence and replays (sweeps over patched copies of /repo must not overwrite the
+# evidence of the unchanged tree)
+_OUT = os.environ.get("VERIF_OUT", VERIF)
+EVIDENCE = os.path.join(_OUT, "evidence")
+REPLAYS = os.path.join(_OUT, "replays")
 
 GOENV = dict(os.environ, GOFLAGS="-mod=mod", GOPROXY="off", GOSUMDB="off", GOTOOLCHAIN="local",
              CGO_ENABLED=os.environ.get("CGO_ENABLED", "1"))
@@ -17,12 +20,12 @@ if os.path.realpath(REPO) != "/repo":
     # VERIF_REPO (background sweeps on a snapshot of /repo): the harness module must resolve
     # go.uber.org/cff to that tree, not to /repo, so a private go.mod is used through -modfile.
     import shutil as _sh
-    _alt = os.path.join(HARNESS, "go.alt.mod")
+    _alt = os.path.join(HARNESS, "go.alt.%s.mod" % hashlib.sha256(os.path.realpath(REPO).encode()).hexdigest()[:10])
     with open(os.path.join(HARNESS, "go.mod")) as _f:
         _txt = _f.read().replace("=> /repo", "=> " + os.path.realpath(REPO))
     with open(_alt, "w") as _f:
         _f.write(_txt)
-    _sh.copy(os.path.join(REPO, "go.sum"), os.path.join(HARNESS, "go.alt.sum"))
+    _sh.copy(os.path.join(REPO, "go.sum"), _alt[:-4] + ".sum")
     GOENV["GOFLAGS"] = "-mod=mod -modfile=" + _alt
 
 
